@@ -74,12 +74,29 @@ pub fn near_semicomplete(rng: &mut Rng, order: usize, keep_size: bool) -> Dg {
         2 | 3 => 1,
         _ => 2,
     };
+    // pairs at "structured" distances (word sizes, powers of two and their neighbours): where block-wise
+    // implementations treat cells differently
+    // (one distance per digraph: a block-wise implementation that mistreats a residue class mistreats
+    // all of its pairs)
+    let ds: Vec<usize> =
+        [1usize, 2, 7, 8, 16, 31, 32, 33, 63, 64, 65, 127, 128, 192].iter().copied().filter(|&d| d < order).collect();
+    let the_d = *rng.pick(&ds);
+    let structured = |rng: &mut Rng| -> (usize, usize) {
+        let d = if rng.chance(3, 4) { the_d } else { *rng.pick(&ds) };
+        let u = rng.below(order - d);
+        (u, u + d)
+    };
+    let use_structured = rng.chance(1, 3);
     for _ in 0..knock {
         // bias the emptied pair towards the first / last rows and columns
-        let &(u, w) = match rng.below(4) {
-            0 => &pairs[0],
-            1 => &pairs[pairs.len() - 1],
-            _ => rng.pick(&pairs),
+        let (u, w) = if use_structured {
+            structured(rng)
+        } else {
+            match rng.below(4) {
+                0 => pairs[0],
+                1 => pairs[pairs.len() - 1],
+                _ => *rng.pick(&pairs),
+            }
         };
         let removed = usize::from(d.a.remove(&(u, w))) + usize::from(d.a.remove(&(w, u)));
         if keep_size {
@@ -88,7 +105,7 @@ pub fn near_semicomplete(rng: &mut Rng, order: usize, keep_size: bool) -> Dg {
             let mut guard = 0;
             while need > 0 && guard < 10 * pairs.len() {
                 guard += 1;
-                let &(x, y) = rng.pick(&pairs);
+                let (x, y) = if use_structured && guard < 50 { structured(rng) } else { *rng.pick(&pairs) };
                 if (x, y) == (u, w) {
                     continue;
                 }
